@@ -32,6 +32,11 @@ CHECKS = {
          "Exhaustive: every octet string of <= 3 octets for TL / SIZE / OID decoding (thorough; quick takes a slice of first octets), every string of <= 3 symbols for hex / decimal, a structured 4-symbol space for base64. Mutants: every tag form, length form (incl. near SIZE_MAX), typed values, all APDU Lc x Le forms, truncations / octet changes of bign parameters and CV certificates; inputs end at a PROT_NONE guard page so any over-read faults.",
          "Trusted: TLC, the transcription of X.690 / ISO 7816-4 as profiled by the headers, guard pages + ASan as the bounds sensor.",
          "DESIGN.md section 4, C08"),
+ "C16": ("exploration",
+         "TLA+ reference semantics of bign96, GOST R 34.10-2012, DSTU 4145 and the pfok DH/MTI protocols (spec/ref/Schemes.tla over ECp / BigNat / GF2Poly), anchored by the standards' reference vectors evaluated by TLC; TLC judges recorded scenarios of the real functions (Trace_Schemes): first admissible draw, component ranges, the s-equation given r, Sign->Verify, Gen->Val, compression round trips, agreement of both pfok parties, alteration classes classified by the reduced hash; expensive values (scalar multiplications, exponentiations) recomputed on a subset",
+         "Every standard parameter set x private-key class {1, order-1, seeded} x hash class {0, all-ones, >= order, seeded} x tape class x signature length x 15-25 single-bit / boundary alterations of r, s, Q; constructed intermediate values (GOST s = 0 redraw); gf2 trace / quadratic solver on 14 fields with exact-size stacks.",
+         "Trusted: TLC, the transcription of the standards (anchored), the C driver; full-value oracle only on the recomputed subset, relational + range oracle elsewhere. An alteration that leaves the reduced hash unchanged is ACCEPT by the specification.",
+         "DESIGN.md section 4, C16"),
  "C17": ("model_checking",
          "secure-messaging state machine spec/sm/BtokSM.tla model-checked over all operation sequences <= 6 of two peers, all behaviours replayed on btokSM*; CV-certificate chains spec/sm/CvcChain.tla enumerated (field classes, alterations, depth 1..3) and executed with real signatures; protected-APDU and key-container VALUES recomputed by TLC from BeltModes (CFB, MAC, PBKDF2, KWP)",
          "Accepted => recovered APDU = protected APDU, counters in step, parity right; altered => rejected; wrong parity => ERR_BAD_LOGIC (replay detection not claimed). Certificates validate exactly when signature, names and validity periods line up; every single-octet alteration of sampled certificates / containers / protected APDUs is rejected; containers open only with the right password.",
@@ -67,6 +72,11 @@ CHECKS = {
          "All relative offsets of dest against src in [-(len+16), len+16] for the listed lengths and 11 positions of each auxiliary buffer inside/straddling the output and input regions are executed for 21 overlap-tolerant functions; result must equal F(inputs before the call).",
          "Trusted: TLC, spec/ref belt semantics, the arena harness. ECB (no overlap statement in its header), bash/brng/DER helpers not yet driven.",
          "DESIGN.md section 4, C11"),
+ "C12": ("exploration",
+         "condition lists of the standards as TLA+ predicates (spec/ref/Validators.tla) over BigNat / GF2Poly / ECp, primality by deterministic Miller-Rabin base sets and TLC-checked n-1 certificates (spec/ref/Pri.tla), anchored by 107 TLC-evaluated vectors; TLC judges every recorded decision of the real validators (Trace_Valid): accept iff every condition holds, each rejection justified by a certificate TLC verifies (factor, remainder, recomputed belt-hash, curve equation)",
+         "Exhaustive: all 10^6 digit dates and every non-digit octet at each position; priIsPrime* / priNextPrime* on [0,2^16) and around 2^32 in 1- and 2-word forms with several factor-base sizes; all binary polynomials of degree <= 12; every (x,y) on complete tiny curves incl. coordinates >= p and the twist. Enumerated: every standard parameter set of bign, bign96, g12s, stb99, pfok, dstu with each single-field perturbation; key classes d in {0,1,q-1,q,q+1}; Carmichael numbers, strong pseudoprimes, products of primes near 2^32 / 2^64; chain-rule boundaries of stb99 / pfok seeds.",
+         "Trusted: TLC, the transcription of the standards' condition lists, python only SEARCHES certificates (TLC verifies them). Primality of a few large standard moduli for which no n-1 certificate was found is assumed (listed in the evidence).",
+         "DESIGN.md section 4, C12"),
  "C13": ("exploration",
          "TLA+ reference semantics of STB 34.101.60 over GF(2)[x] (spec/ref/Bels.tla: shares, CRT recovery, irreducibility, minimal polynomial) anchored by 84 TLC-evaluated vectors; TLC recomputes every recorded share / recovery of the real library (Trace_Bels) and checks recovered = secret for every subset of at least threshold shares in every order enumerated",
          "len x count x threshold enumerated; for count <= 6 ALL subsets of size >= threshold and all orders of small subsets are recovered by the real code and recomputed by TLC from the definition; larger counts by seeded subsets; secrets and one-time keys seeded.",
